@@ -67,10 +67,14 @@ impl Binder {
             return Err(ErrorKind::TableExists(table_name.into()).with_spanned(&name));
         }
 
-        // check duplicated column names
+        // check duplicated column names; every table gets a hidden `_rowid_` column, which a user
+        // column must not clash with (the clash would only be noticed after the statement has
+        // been logged, and again at every later open)
         let mut set = HashSet::new();
         for col in &columns {
-            if !set.insert(col.name.value.to_lowercase()) {
+            if col.name.value.eq_ignore_ascii_case("_rowid_")
+                || !set.insert(col.name.value.to_lowercase())
+            {
                 return Err(
                     ErrorKind::ColumnExists(col.name.value.to_lowercase()).with_spanned(col)
                 );
